@@ -58,6 +58,78 @@ CLAIMS.update({
         technique="Coq proof (monotonicity lemmas over Q) + differential correspondence on injected dominating pairs"),
 })
 
+CLAIMS.update({
+    "C01": dict(
+        text=("Theorems (closed under the global context) over the model of DecisionMatrix selection (label lists in any "
+              "order, inclusive label slices both directions, position lists, positional ranges, masks, copy, dict round "
+              "trip): for EVERY well-formed matrix and EVERY finite chain of operations, each surviving criterion looked up "
+              "by label has its own objective, weight, dtype and cells; derived matrices list labels in the requested order; "
+              "a missing label is refused; every documented alias resolves to the sense it names (finite table). Tie to "
+              "/repo: random chains of dm[...]/loc/iloc/copy/round-trip compared exactly with the extracted run_ops, plus a "
+              "by-label oracle against the source matrix and the alias enumeration both ways."),
+        design="§5 C01",
+        note=NOTE_COMMON + "Model: coq/Model/Select.v. Chains are generated inside the selector subset of DESIGN §5 C01; "
+             "positional slices are normalised with Python's slice.indices.",
+        technique="Coq proof (alignment by label under gather) + exact API-level correspondence on selection chains"),
+    "C08": dict(
+        text=("Theorems over the Q model of concordance / discordance / weight comparison / outranking / kernel / strong and "
+              "weak relations / distillation: outrank iff (c>=p and d<=q, never diagonal); kernel = nobody outranks; "
+              "0<=c<=sum w and c(a,b) + weight where b strictly better = sum w; d>=0 and d=0 iff nowhere worse; weight "
+              "comparison total; strong subset of weak under the threshold order; the distillation terminates within the "
+              "fuel for every pair of relations. Partial: the distillation's ranking itself is tied to the code by staged "
+              "correspondence only. Tie to /repo: staged exact comparison (tables from the matrix; relations from reported "
+              "tables; rankings from reported relations) with thresholds on the k/8 grid."),
+        design="§5 C08",
+        note=NOTE_COMMON + "Model: coq/Model/Electre.v. Known finding C08-wor-args-exchanged (matrix_wor) is reported as KNOWN-FINDING; "
+             "coq/Findings.v proves the exchanged-argument relation differs from the specified one.",
+        technique="Coq proof over Q model + staged exact correspondence on reported intermediates"),
+    "C10": dict(
+        text=("Theorems about the frame structure of the transformer base classes for EVERY concrete computation (the "
+              "transformer's own computation is an arbitrary function): a part the kind does not declare is unchanged; "
+              "criteria never change; alternatives only under filters; pipelines preserve every part no step declares; "
+              "inverters leave all objectives maximise; filters keep a sorted subsequence of rows, each identical. The "
+              "theorem is about the merge structure (thin by nature); which kind each real class belongs to, and that it "
+              "really merges that way, is established by the correspondence: every introspected class x parameter grid, "
+              "undeclared parts compared to the last bit."),
+        design="§5 C10",
+        note=NOTE_COMMON + "Model: coq/Model/Transform.v (declares/merge).",
+        technique="Coq proof (frame of merge) + bitwise differential check of undeclared parts over all introspected classes"),
+    "C11": dict(
+        text=("Theorems over the Q model of the rational scalers for ALL vectors: SumScaler sums to 1 and each cell is x/sum; "
+              "MaxAbs largest |.| is 1; MinMax is the affine map with min->lo, max->hi (constant criterion -> lo); Cenit "
+              "ideal->1, anti-ideal->0 per objective; PushNegatives shifts exactly the vectors with a negative minimum, new "
+              "minimum 0; AddValueToZero adds exactly to vectors containing a zero; a matrix-target scaler acts on each "
+              "column separately (col j of output = f(col j)). Partial: VectorScaler / StandarScaler are checked through "
+              "their rational cores closed with sqrt by the harness. Tie to /repo: cell-by-cell comparison with the "
+              "extracted model on non-square matrices, all targets and parameter grids, plus direct normal-form oracle."),
+        design="§5 C11",
+        note=NOTE_COMMON + "Model: coq/Model/Transform.v.",
+        technique="Coq proof over Q model of scalers + cell-wise differential correspondence"),
+    "C12": dict(
+        text=("Theorems for ALL vectors/rows: a strictly increasing map preserves every pairwise preference; division by a "
+              "positive constant, positive affine maps and shifts are strictly increasing; hence Sum/MaxAbs/MinMax/"
+              "PushNegatives/AddValueToZero keep `better` for every pair (MinMax constant criterion: ties stay ties); "
+              "negation and reciprocal (on positives) turn better-under-MIN into better-under-MAX; dominance (both strict "
+              "settings) depends only on the per-criterion preference profile, so it is invariant. VectorScaler / "
+              "StandarScaler are covered as instances of division by a positive constant (their constant is a real "
+              "sqrt; the rational statement is for any positive divisor). Tie to /repo: random step sequences and the "
+              "same steps as a pipeline; sign matrices and dominance before/after, and against the model."),
+        design="§5 C12",
+        note=NOTE_COMMON + "Exact-arithmetic theorem; generated values are separated so that float rounding cannot collapse them.",
+        technique="Coq proof (monotone maps preserve the preference profile; dominance is a function of it) + differential check"),
+    "C13": dict(
+        text=("Theorems over the rational cores: EqualWeighter = base/m; normalised weights sum to 1 and are non-negative; "
+              "sample / population variance, covariance and average ranks are independent of the order of alternatives; "
+              "covariance symmetric with the variance on the diagonal; Cauchy-Schwarz cov^2 <= var*var (so every CRITIC "
+              "term 1 - r is >= 0); the reduced functions the driver executes equal the specified cores. Partial: the "
+              "sqrt / ln closings (standard deviation, correlation, entropy) are evaluated by the harness at 60 digits. Tie "
+              "to /repo: weights vs closing of the model cores and vs an independent Decimal re-computation; permuted "
+              "presentations compared by criterion label."),
+        design="§5 C13",
+        note=NOTE_COMMON + "Model: coq/Model/Weights.v. Known finding C13-critic-single-criterion-nan is reported as KNOWN-FINDING.",
+        technique="Coq proof over rational cores (incl. Cauchy-Schwarz) + differential correspondence with 60-digit closings"),
+})
+
 PENDING_REASON = "check not yet built in this session; planned as described in DESIGN.md §5 (no claim is made until it runs)"
 
 
